@@ -89,7 +89,16 @@ impl PathData {
                 .as_ref()
                 .filter(|_| allow_mtud)
                 .map_or_else(
-                    || MtuDiscovery::disabled(config.get_initial_mtu(), config.min_mtu),
+                    || {
+                        let mut mtud =
+                            MtuDiscovery::disabled(config.get_initial_mtu(), config.min_mtu);
+                        // On a new path of an established connection the peer's limit is already
+                        // known and applies without discovery too
+                        if let Some(peer_max_udp_payload_size) = peer_max_udp_payload_size {
+                            mtud.on_peer_max_udp_payload_size_received(peer_max_udp_payload_size);
+                        }
+                        mtud
+                    },
                     |mtud_config| {
                         MtuDiscovery::new(
                             config.get_initial_mtu(),
